@@ -9,6 +9,7 @@ Open Scope N_scope.
 
 (* The scale factors and discounts of the model are those of the source now (Gen/Tables.v is regenerated on every run). *)
 From EV Require Gen.Tables Proofs.TablesTie.
+From EV Require Gen.SrcPreds Gen.SrcSizes Proofs.SrcPreds Proofs.SrcSizes.
 Theorem C12_constants_from_source : forall t o,
   tx_weight t = scaled_size Tables.c12_weight_scale t /\ tx_size t = scaled_size Tables.c12_size_scale t
   /\ tx_vsize t = (tx_weight t + (Tables.c12_vsize_div - 1)) / Tables.c12_vsize_div
@@ -45,6 +46,36 @@ Theorem C12_block_weight : forall b,
   block_weight maxvec cap_vecu8 b =
   4 * (N.of_nat (length (enc (c_header maxvec cap_vecu8) (b_header b))) + vi_size (N.of_nat (length (b_txs b)))) + nsum (map tx_weight (b_txs b)).
 Proof. reflexivity. Qed.
+
+(* ---- the same statements about the accessors AS TRANSLATED FROM THE SOURCE on every run (Gen/SrcSizes.v, Gen/SrcPreds.v: rust2coq applied to
+   Transaction::{scaled_size, size, weight, vsize, discount_weight, discount_vsize}, Block::{size, weight}, and the predicates they call).
+   A change of any of those function bodies changes the definitions below; the equalities of Proofs/SrcSizes.v must then be re-proved. *)
+Theorem C12_src_is_model : forall t k b,
+  SrcSizes.src_Transaction_scaled_size t k = scaled_size k t /\ SrcSizes.src_Transaction_size t = tx_size t /\ SrcSizes.src_Transaction_weight t = tx_weight t
+  /\ SrcSizes.src_Transaction_vsize t = tx_vsize t /\ SrcSizes.src_Transaction_discount_weight t = discount_weight t
+  /\ SrcSizes.src_Transaction_discount_vsize t = discount_vsize t
+  /\ SrcSizes.src_Block_size maxvec cap_vecu8 b = block_size maxvec cap_vecu8 b /\ SrcSizes.src_Block_weight maxvec cap_vecu8 b = block_weight maxvec cap_vecu8 b.
+Proof. intros t k b. repeat split; auto using SrcSizes.src_scaled_size, SrcSizes.src_size, SrcSizes.src_weight, SrcSizes.src_vsize,
+  SrcSizes.src_discount_weight, SrcSizes.src_discount_vsize, SrcSizes.src_block_size, SrcSizes.src_block_weight. Qed.
+Theorem C12_src_size : forall t, wf TX t = true -> SrcSizes.src_Transaction_size t = N.of_nat (length (enc TX t)).
+Proof. intros t W. rewrite SrcSizes.src_size. now apply C12_size. Qed.
+Theorem C12_src_weight : forall t, wf TX t = true ->
+  SrcSizes.src_Transaction_weight t = 3 * N.of_nat (length (enc TX (strip_tx t))) + N.of_nat (length (enc TX t)).
+Proof. intros t W. rewrite SrcSizes.src_weight. now apply C12_weight. Qed.
+Theorem C12_src_vsize : forall t, 4 * SrcSizes.src_Transaction_vsize t >= SrcSizes.src_Transaction_weight t
+  /\ 4 * SrcSizes.src_Transaction_vsize t < SrcSizes.src_Transaction_weight t + 4.
+Proof. intros t. rewrite SrcSizes.src_vsize, SrcSizes.src_weight. split; apply C12_vsize. Qed.
+Theorem C12_src_discount : forall t,
+  SrcSizes.src_Transaction_discount_weight t = SrcSizes.src_Transaction_weight t - nsum (map output_discount (tx_out t))
+  /\ nsum (map output_discount (tx_out t)) <= SrcSizes.src_Transaction_weight t
+  /\ SrcSizes.src_Transaction_discount_vsize t = (SrcSizes.src_Transaction_discount_weight t + 3) / 4.
+Proof. intros t. rewrite SrcSizes.src_discount_weight, SrcSizes.src_weight, SrcSizes.src_discount_vsize. split; [|split]; [apply C12_discount|apply C12_discount|reflexivity]. Qed.
+Theorem C12_src_block : forall b, wf BLOCK b = true ->
+  SrcSizes.src_Block_size maxvec cap_vecu8 b = N.of_nat (length (enc BLOCK b))
+  /\ SrcSizes.src_Block_weight maxvec cap_vecu8 b =
+     4 * (N.of_nat (length (enc (c_header maxvec cap_vecu8) (b_header b))) + vi_size (N.of_nat (length (b_txs b)))) + nsum (map SrcSizes.src_Transaction_weight (b_txs b)).
+Proof. intros b W. rewrite SrcSizes.src_block_size, SrcSizes.src_block_weight. split; [now apply C12_block_size|].
+  rewrite C12_block_weight. f_equal. apply SrcSizes.nsum_map_ext. intros x. symmetry. apply SrcSizes.src_weight. Qed.
 End C12.
 
 Check (C12_size : forall pt_ok maxvec cap_txin cap_txout cap_vecu8 t, wf (c_tx pt_ok maxvec cap_txin cap_txout cap_vecu8) t = true ->
